@@ -182,6 +182,10 @@ int val_compare(NanoValue a, NanoValue b) {
             return 0;
         case TAG_BOOL:
             return (int)a.as.boolean - (int)b.as.boolean;
+        case TAG_ENUM:   /* enum values are integers (spec 3.4.2) */
+            return a.as.enum_val < b.as.enum_val ? -1 : a.as.enum_val > b.as.enum_val ? 1 : 0;
+        case TAG_U8:
+            return (int)a.as.u8 - (int)b.as.u8;
         case TAG_STRING:
             if (a.as.string == b.as.string) return 0;
             if (!a.as.string) return -1;
